@@ -30,6 +30,7 @@ type TimeBank struct {
 	deferred  bool
 	armedN    int // number of tasks armed so far (ghost)
 	firedN    int // number of callbacks run with isCancelled=false (ghost)
+	before    func() // harness hook: what the environment does while the next timer is running
 }
 
 func NewTimeBank() *TimeBank {
@@ -53,6 +54,12 @@ func (tb *TimeBank) NewTask(duration time.Duration, fn func(isCancelled bool)) e
 		tb.duration = duration
 		tb.armedN++
 		tb.firedN++
+		if duration != 0 && tb.before != nil {
+			// the interval is not empty: the environment acts while the timer runs
+			f := tb.before
+			tb.before = nil
+			f()
+		}
 		fn(false)
 		return nil
 	}
@@ -78,6 +85,9 @@ func (tb *TimeBank) NewTaskWithDeadline(deadline time.Time, fn func(isCancelled 
 // ---- model controls (harness only) ----
 
 func (tb *TimeBank) ModelSetDeferred(d bool) { tb.deferred = d }
+
+// ModelDuringNextInterval: f runs after the next (non-zero) timer was armed and before it fires.
+func (tb *TimeBank) ModelDuringNextInterval(f func()) { tb.before = f }
 func (tb *TimeBank) ModelArmed() bool         { return tb.isRunning }
 func (tb *TimeBank) ModelDuration() time.Duration {
 	return tb.duration
